@@ -293,6 +293,12 @@ func samePath(a, b ssa.Value) bool {
 // derivesFrom: does v (transitively through pure operators, calls and phis) depend on a value satisfying pred?
 // Bounded backwards def-use walk inside one function (and into free-variable bindings).
 func derivesFrom(v ssa.Value, pred func(ssa.Value) bool) bool {
+	return derivesFromStop(v, pred, nil)
+}
+
+// derivesFromStop: as derivesFrom, but the walk does not descend into a value for which stop holds (used to ask "is v
+// this datum itself, or a sum containing it" rather than "does v depend on it in any way").
+func derivesFromStop(v ssa.Value, pred func(ssa.Value) bool, stop func(ssa.Value) bool) bool {
 	seen := map[ssa.Value]bool{}
 	var walk func(ssa.Value, int) bool
 	walk = func(x ssa.Value, d int) bool {
@@ -302,6 +308,9 @@ func derivesFrom(v ssa.Value, pred func(ssa.Value) bool) bool {
 		seen[x] = true
 		if pred(x) {
 			return true
+		}
+		if stop != nil && stop(x) {
+			return false
 		}
 		switch y := x.(type) {
 		case *ssa.FreeVar:
@@ -434,4 +443,80 @@ func allocStoresDerive(a *ssa.Alloc, f func(ssa.Value) bool) bool {
 		return false
 	}
 	return addrUses(a)
+}
+
+// isSubtractiveOp: x is the result of a subtraction, multiplication or division of amounts: the result is no longer "the
+// same quantity" as any operand.
+func isSubtractiveOp(x ssa.Value) bool {
+	c, ok := x.(*ssa.Call)
+	if !ok {
+		if bo, isB := x.(*ssa.BinOp); isB {
+			switch bo.Op {
+			case token.SUB, token.MUL, token.QUO, token.REM:
+				return true
+			}
+		}
+		return false
+	}
+	switch calleeName(c) {
+	case "(data/balance.Coin).Minus", "(data/balance.Amount).Minus", "(*data/balance.Amount).Minus",
+		"(*math/big.Int).Sub", "(*math/big.Int).Mul", "(*math/big.Int).Div", "(*math/big.Int).Quo", "(*math/big.Int).Mod", "(*math/big.Int).Rem",
+		"(data/balance.Coin).DivideInt64", "(data/balance.Coin).MultiplyInt", "(data/balance.Coin).MultiplyInt64", "(data/balance.Coin).Divide":
+		return true
+	}
+	return false
+}
+
+// everyAlternative: test holds for every value v may be: the incoming values of a phi, and the values stored whole into a
+// local (a coin variable assigned on several branches and then passed by address or loaded). Other values are leaves.
+func everyAlternative(v ssa.Value, test func(ssa.Value) bool) bool {
+	seen := map[ssa.Value]bool{}
+	var walk func(x ssa.Value, d int) bool
+	walk = func(x ssa.Value, d int) bool {
+		if x == nil || d > 12 {
+			return false
+		}
+		if seen[x] {
+			return true // a cycle adds no new alternative
+		}
+		seen[x] = true
+		switch y := x.(type) {
+		case *ssa.Phi:
+			for _, e := range y.Edges {
+				if !walk(e, d+1) {
+					return false
+				}
+			}
+			return len(y.Edges) > 0
+		case *ssa.UnOp:
+			if y.Op == token.MUL {
+				if a, ok := y.X.(*ssa.Alloc); ok {
+					return walk(a, d+1)
+				}
+			}
+		case *ssa.MakeInterface:
+			return walk(y.X, d+1)
+		case *ssa.ChangeType:
+			return walk(y.X, d+1)
+		case *ssa.Alloc:
+			var whole []ssa.Value
+			if refs := y.Referrers(); refs != nil {
+				for _, r := range *refs {
+					if st, ok := r.(*ssa.Store); ok && st.Addr == ssa.Value(y) {
+						whole = append(whole, st.Val)
+					}
+				}
+			}
+			if len(whole) > 0 {
+				for _, w := range whole {
+					if !walk(w, d+1) {
+						return false
+					}
+				}
+				return true
+			}
+		}
+		return test(x)
+	}
+	return walk(v, 0)
 }
